@@ -68,6 +68,7 @@ type Result struct {
 	Skipped      int            `json:"skipped_precondition"`
 	SkippedWhy   map[string]int `json:"skipped_why"`
 	InconcWhy    map[string]int `json:"inconclusive_why"`
+	InconcCases  []string       `json:"inconclusive_cases"`
 	Violations   []Violation    `json:"violations"`
 	Masked       map[string]int `json:"masked_by_known_finding"`
 	Faults       map[string]int `json:"faults"`
@@ -289,6 +290,13 @@ func run(args []string) {
 		case "inconclusive":
 			res.Inconclusive++
 			res.InconcWhy[v.Detail]++
+			if len(res.InconcCases) < 3 {
+				smp := c.Sample
+				if len(smp) > 1500 {
+					smp = smp[:1500] + "..."
+				}
+				res.InconcCases = append(res.InconcCases, fmt.Sprintf("case index %d (%s, steps %d): %s", idx, v.Detail, c.Steps, smp))
+			}
 		case "skipped":
 			res.Skipped++
 			res.SkippedWhy[v.Clause]++
